@@ -1129,7 +1129,11 @@ class DirectiveParser(Parser):
         # Match system include
         try:
             path_tokens = self.__path(Operator, "<", ">")
-            path_str = "".join([str(t) for t in path_tokens])
+            # Keep the white space between the tokens of the name.
+            path_str = "".join(
+                (" " if i > 0 and t.prev_white else "") + str(t)
+                for i, t in enumerate(path_tokens)
+            )
             if util.valid_path(path_str):
                 return IncludePath(path_str, system=True)
         except ParseError:
